@@ -1,9 +1,98 @@
 (* C08 - HTTP responses are well-formed bencode carrying exactly the computed answer.
-   Statements only; proofs are in Proofs/HttpWriteP.v. *)
+   Statements only; proofs are in Proofs/HttpWriteP.v.
+
+   [announce_value r], [scrape_value fs], [error_value e] are the dictionaries
+   the writer hands to the encoder.  Go emits a dictionary's entries in
+   arbitrary order, so the theorems speak about EVERY value v' with
+   [same_value v v' = true] (v' equals v as a finite map at every level and has
+   no repeated key): [bencode v'] ranges over all bodies the writer can emit.
+   The decoder is [bdecode] of C19, written from the grammar independently of
+   the encoder.  [get k v'] is what a client finds under key k. *)
 From Chihaya Require Import Model.HttpWrite Proofs.HttpWriteP.
 Open Scope Z_scope.
 
+(* compact form: counts, whole-second intervals, and "peers"/"peers6" present
+   exactly when non-empty, holding the concatenated entries *)
+Theorem C08_announce_body_decodes_compact : forall r v v' fuel,
+  a_compact r = true -> announce_value r = Some v ->
+  same_value v v' = true -> (length (bencode v') <= fuel)%nat ->
+  bdecode fuel (bencode v') = Ok v' [] /\
+  get k_complete v' = Some (BInt (a_complete r)) /\
+  get k_incomplete v' = Some (BInt (a_incomplete r)) /\
+  get k_interval v' = Some (BInt (dur_secs (a_interval r))) /\
+  get k_min_interval v' = Some (BInt (dur_secs (a_min_interval r))) /\
+  exists c4 c6, compact_all compact4 (a_v4 r) = Some c4 /\ compact_all compact6 (a_v6 r) = Some c6 /\
+                get k_peers v' = opt_str c4 /\ get k_peers6 v' = opt_str c6.
+Proof. exact announce_body_decodes_compact. Qed.
+Print Assumptions C08_announce_body_decodes_compact.
+
+(* cutting the compact strings into 6- and 18-byte entries gives back exactly
+   the peers' addresses and ports, in order *)
+Theorem C08_compact4_decodes : forall ps c fuel,
+  forallb peer_wf ps = true -> compact_all compact4 ps = Some c -> (length c <= fuel)%nat ->
+  decode_compact 4 fuel c = map endpoint4 ps.
+Proof. exact compact4_decodes. Qed.
+Print Assumptions C08_compact4_decodes.
+
+Theorem C08_compact6_decodes : forall ps c fuel,
+  forallb peer_wf ps = true -> compact_all compact6 ps = Some c -> (length c <= fuel)%nat ->
+  decode_compact 16 fuel c = map endpoint6 ps.
+Proof. exact compact6_decodes. Qed.
+Print Assumptions C08_compact6_decodes.
+
+(* dictionary form: "peers" is the list, in order, of one dictionary per peer
+   with its 20 raw ID bytes, the text of its address and its port *)
+Theorem C08_announce_body_decodes_dict : forall r v v' fuel,
+  a_compact r = false -> announce_value r = Some v ->
+  same_value v v' = true -> (length (bencode v') <= fuel)%nat ->
+  bdecode fuel (bencode v') = Ok v' [] /\
+  get k_complete v' = Some (BInt (a_complete r)) /\
+  get k_incomplete v' = Some (BInt (a_incomplete r)) /\
+  get k_interval v' = Some (BInt (dur_secs (a_interval r))) /\
+  get k_min_interval v' = Some (BInt (dur_secs (a_min_interval r))) /\
+  get k_peers6 v' = None /\
+  exists pl, get k_peers v' = Some (BList pl) /\ Forall2 peer_read (a_v4 r ++ a_v6 r) pl.
+Proof. exact announce_body_decodes_dict. Qed.
+Print Assumptions C08_announce_body_decodes_dict.
+
+(* scrape: "files" keyed by the raw infohash; a repeated infohash collapses to
+   its last entry; no other key *)
+Theorem C08_scrape_body_decodes : forall fs v' fuel,
+  same_value (scrape_value fs) v' = true -> (length (bencode v') <= fuel)%nat ->
+  bdecode fuel (bencode v') = Ok v' [] /\
+  exists fd, get k_files v' = Some (BDict fd) /\
+    forall ih, match last_file ih fs with
+               | Some f => exists pd, lookup ih fd = Some pd /\
+                                      get k_complete pd = Some (BInt (f_complete f)) /\
+                                      get k_incomplete pd = Some (BInt (f_incomplete f))
+               | None => lookup ih fd = None
+               end.
+Proof. exact scrape_body_decodes. Qed.
+Print Assumptions C08_scrape_body_decodes.
+
+(* a client error carries its own text *)
+Theorem C08_error_body_client : forall msg v' fuel,
+  same_value (error_value (ClientErr msg)) v' = true -> (length (bencode v') <= fuel)%nat ->
+  bdecode fuel (bencode v') = Ok v' [] /\ get k_failure v' = Some (BStr msg).
+Proof. exact error_body_client. Qed.
+Print Assumptions C08_error_body_client.
+
+(* every other error: the constant text ... *)
+Theorem C08_error_body_internal : forall v' fuel,
+  same_value (error_value InternalErr) v' = true -> (length (bencode v') <= fuel)%nat ->
+  bdecode fuel (bencode v') = Ok v' [] /\ get k_failure v' = Some (BStr internal_msg).
+Proof. exact error_body_internal. Qed.
+Print Assumptions C08_error_body_internal.
+
+(* ... so that any two non-client errors give the same body: no detail, nothing echoed *)
 Theorem C08_error_body_internal_constant : forall e e',
   is_client e = false -> is_client e' = false -> http_error_body e = http_error_body e'.
 Proof. exact error_body_internal_constant. Qed.
 Print Assumptions C08_error_body_internal_constant.
+
+(* the decoder consumes the whole body: one value, nothing after it *)
+Theorem C08_single_value : forall v v' fuel,
+  same_value v v' = true -> (length (bencode v') <= fuel)%nat ->
+  bdecode fuel (bencode v') = Ok v' [].
+Proof. exact single_value. Qed.
+Print Assumptions C08_single_value.
